@@ -27,6 +27,18 @@
 (*   OpenMatchesMeta Open opens sealed segments for reading and the tail   *)
 (*                   for writing, under the names the metadata gives       *)
 (*   WriteOnlyTail   segment writes / fsyncs only ever touch the tail      *)
+(*   WriteShape      ONE write per batch, holding exactly: the file header *)
+(*                   iff it is the first write of the file, one entry      *)
+(*                   frame per submitted entry, an index frame iff the     *)
+(*                   batch seals the segment, one commit frame (a batch    *)
+(*                   split over several writes could be torn BETWEEN them: *)
+(*                   C02's batch atomicity rests on this); a forced seal   *)
+(*                   writes index + commit; Open writes only zeros         *)
+(*   WriteContiguous every write starts where the previous one ended       *)
+(*   IndexCount      an index frame lists one offset per entry in the file *)
+(*   RotationDue     an append that wrote the index frame is followed by   *)
+(*                   the background rotation before the next call, and no  *)
+(*                   rotation happens without one                          *)
 (*   BoundsMatch     FirstIndex/LastIndex reported at the return of every  *)
 (*                   call = the contract's bounds (LogOps) after the call  *)
 (*   MetaDescribesLog the committed metadata denotes those bounds          *)
@@ -55,14 +67,17 @@ VARIABLES l,
           ncommit,       \* metadata commits seen inside the current call
           prev,          \* the metadata before the first commit of the current call / background rotation
           rb,            \* the file creation that follows a commit failed: the transaction has to be rolled back
+          wend, fent,    \* per file id written in full view of this run: end of the last write (chunks) / entry frames in it
+          rotdue,        \* an append wrote the index frame: the background rotation is due
           viol, cnt      \* recorded mismatches / number of clause evaluations per clause family
 
-vars == <<l, mk, meta, dk, dir, lk, lf, ll, op, ncommit, prev, rb, viol, cnt>>
+vars == <<l, mk, meta, dk, dir, lk, lf, ll, op, ncommit, prev, rb, wend, fent, rotdue, viol, cnt>>
 
 Ev == Trace[l]
 NoOp == [k |-> "none", first |-> 0, n |-> 0, cons |-> FALSE, min |-> 0, max |-> 0]
 NoMeta == [next |-> 0, segs |-> <<>>]
 ToSet(sq) == {sq[j] : j \in 1..Len(sq)}
+Put(f, k, v) == [x \in DOMAIN f \cup {k} |-> IF x = k THEN v ELSE f[x]]
 SegsOf(e) == [k \in 1..Len(e.segs) |-> Seg(e.segs[k][1], e.segs[k][2], e.segs[k][3], e.segs[k][4], e.segs[k][5] = 1)]
 IStartOK(e) == \A k \in 1..Len(e.segs) : (e.segs[k][5] = 1) = (e.segs[k][6] > 0)
 
@@ -80,8 +95,8 @@ DClass(mn, mx) ==
 StoreLegal(o) == o.n = 0 \/ (o.cons /\ o.first >= 1 /\ (Emp \/ o.first = ll + 1))
 
 Init == /\ l = 1 /\ mk = FALSE /\ meta = NoMeta /\ dk = FALSE /\ dir = {} /\ lk = FALSE /\ lf = 0 /\ ll = 0
-        /\ op = NoOp /\ ncommit = 0 /\ prev = NoMeta /\ rb = FALSE /\ viol = {}
-        /\ cnt = [shape |-> 0, wf |-> 0, file |-> 0, bounds |-> 0, dirx |-> 0,
+        /\ op = NoOp /\ ncommit = 0 /\ prev = NoMeta /\ rb = FALSE /\ wend = <<>> /\ fent = <<>> /\ rotdue = FALSE /\ viol = {}
+        /\ cnt = [shape |-> 0, wf |-> 0, file |-> 0, bounds |-> 0, dirx |-> 0, wshape |-> 0,
                   \* transactions whose committed result was compared, per kind (vacuity guard)
                   Init |-> 0, Rotate |-> 0, OpenRotate |-> 0, Reset |-> 0, Head |-> 0, Tail |-> 0, Recommit |-> 0]
 
@@ -97,6 +112,7 @@ Failed ==
            ELSE rb \/ (Ev.call = "create" /\ mk /\ ncommit > 0 /\ meta.segs # <<>> /\ Ev.id = TailOf(meta.segs).id)
   /\ dk' = FALSE
   /\ dir' = IF Ev.call = "create" /\ Ev.res = "err-left" THEN dir \cup {Ev.id} ELSE dir
+  /\ wend' = <<>> /\ fent' = <<>> /\ rotdue' = FALSE       \* (a rolled-back append leaves the file tracking moot)
   /\ UNCHANGED <<mk, meta, lk, lf, ll, op, ncommit, prev, viol, cnt>>
 
 (* the metadata the current call has to commit, or "none" *)
@@ -136,23 +152,26 @@ Commit ==
              \cup (IF ex.k = "skip" THEN {}
                    ELSE IF ex.k = "none" THEN {"UnexpectedCommit"}
                    ELSE IF ex.v = new THEN {} ELSE {"Shape" \o ex.k})
+             \* a background rotation only ever follows an append that wrote the index frame of the tail
+             \cup (IF ex.k = "Rotate" /\ ~rotdue /\ TailOf(meta.segs).id \in DOMAIN fent THEN {"RotationDue"} ELSE {})
   IN /\ Rec(bad)
+     /\ rotdue' = IF ex.k \in {"Rotate", "Recommit"} THEN FALSE ELSE rotdue
      /\ meta' = new /\ mk' = TRUE /\ ncommit' = ncommit + 1
      /\ prev' = (IF rb THEN prev ELSE meta) /\ rb' = FALSE
      /\ cnt' = LET c1 == [cnt EXCEPT !.wf = @ + 1, !.shape = IF ex.k = "skip" THEN @ ELSE @ + 1] IN
                IF ex.k \in {"skip", "none"} THEN c1 ELSE [c1 EXCEPT ![ex.k] = @ + 1]
-     /\ UNCHANGED <<dk, dir, lk, lf, ll, op>>
+     /\ UNCHANGED <<dk, dir, lk, lf, ll, op, wend, fent>>
 
 Load ==
   LET ld == [next |-> Ev.next, segs |-> SegsOf(Ev)] IN
   /\ Rec(IF mk /\ meta # ld THEN {"LoadIsCommitted"} ELSE {})
   /\ meta' = ld /\ mk' = TRUE
-  /\ UNCHANGED <<dk, dir, lk, lf, ll, op, ncommit, cnt, prev, rb>>
+  /\ UNCHANGED <<dk, dir, lk, lf, ll, op, ncommit, cnt, prev, rb, wend, fent, rotdue>>
 
 List ==
   /\ Rec(IF dk /\ dir # ToSet(Ev.ids) THEN {"ListIsDir"} ELSE {})
   /\ dir' = ToSet(Ev.ids) /\ dk' = TRUE
-  /\ UNCHANGED <<mk, meta, lk, lf, ll, op, ncommit, cnt, prev, rb>>
+  /\ UNCHANGED <<mk, meta, lk, lf, ll, op, ncommit, cnt, prev, rb, wend, fent, rotdue>>
 
 Create ==
   LET t == TailOf(meta.segs)
@@ -161,13 +180,14 @@ Create ==
   IN /\ Rec(bad)
      /\ dir' = dir \cup {Ev.id}
      /\ cnt' = IF mk THEN Bump("file") ELSE cnt
-     /\ UNCHANGED <<mk, meta, dk, lk, lf, ll, op, ncommit, prev, rb>>
+     /\ wend' = Put(wend, Ev.id, 0) /\ fent' = Put(fent, Ev.id, 0)        \* a file this run has seen from its creation
+     /\ UNCHANGED <<mk, meta, dk, lk, lf, ll, op, ncommit, prev, rb, rotdue>>
 
 Unlink ==
   /\ Rec(IF mk /\ Ev.id \in Ids(meta.segs) THEN {"UnlinkUnlisted"} ELSE {})
   /\ dir' = dir \ {Ev.id}
   /\ cnt' = IF mk THEN Bump("file") ELSE cnt
-  /\ UNCHANGED <<mk, meta, dk, lk, lf, ll, op, ncommit, prev, rb>>
+  /\ UNCHANGED <<mk, meta, dk, lk, lf, ll, op, ncommit, prev, rb, wend, fent, rotdue>>
 
 OpenFile ==      \* openr / openw during Open
   LET match == {k \in 1..Len(meta.segs) : meta.segs[k].id = Ev.id /\ meta.segs[k].base = Ev.base}
@@ -175,21 +195,49 @@ OpenFile ==      \* openr / openw during Open
             /\ \A k \in match : meta.segs[k].sealed = (Ev.call = "openr")
   IN /\ Rec(IF mk /\ op.k = "open" /\ ~ok THEN {"OpenMatchesMeta"} ELSE {})
      /\ cnt' = IF mk /\ op.k = "open" THEN Bump("file") ELSE cnt
-     /\ UNCHANGED <<mk, meta, dk, dir, lk, lf, ll, op, ncommit, prev, rb>>
+     /\ UNCHANGED <<mk, meta, dk, dir, lk, lf, ll, op, ncommit, prev, rb, wend, fent, rotdue>>
 
-WriteSync ==
+Sync ==
   /\ Rec(IF mk /\ meta.segs # <<>> /\ Ev.id # TailOf(meta.segs).id THEN {"WriteOnlyTail"} ELSE {})
   /\ cnt' = IF mk THEN Bump("file") ELSE cnt
-  /\ UNCHANGED <<mk, meta, dk, dir, lk, lf, ll, op, ncommit, prev, rb>>
+  /\ UNCHANGED <<mk, meta, dk, dir, lk, lf, ll, op, ncommit, prev, rb, wend, fent, rotdue>>
+
+(* what one write may hold: the harness logs the frame letters and their counts (H file header, E entry, I index, C commit) *)
+Write ==
+  LET known == Ev.id \in DOMAIN wend
+      first == Ev.woff = 0
+      fr == Ev.frames
+      nE == Ev.nent
+      isBatch == op.k = "store" /\ op.n > 0
+      shapeOK == IF isBatch THEN /\ Ev.nhdr = (IF first THEN 1 ELSE 0) /\ nE = op.n /\ Ev.ncmt = 1 /\ Ev.nidxf \in {0, 1} /\ Ev.wellformed
+                 ELSE IF op.k = "delete" THEN Ev.nhdr = 0 /\ nE = 0 /\ Ev.nidxf = 1 /\ Ev.ncmt = 1 /\ Ev.wellformed
+                 ELSE IF op.k = "open" THEN fr = "Z"
+                 ELSE FALSE
+      bad == (IF mk /\ meta.segs # <<>> /\ Ev.id # TailOf(meta.segs).id THEN {"WriteOnlyTail"} ELSE {})
+             \cup (IF shapeOK THEN {} ELSE {"WriteShape"})
+             \cup (IF known /\ fr # "Z" /\ Ev.woff # wend[Ev.id] THEN {"WriteContiguous"} ELSE {})
+             \cup (IF known /\ Ev.nidxf = 1 /\ Ev.nidx # fent[Ev.id] + nE THEN {"IndexCount"} ELSE {})
+  IN /\ Rec(bad)
+     /\ cnt' = [cnt EXCEPT !.file = @ + 1, !.wshape = @ + 1]
+     /\ wend' = IF ~known THEN wend
+                ELSE IF fr = "Z" THEN [wend EXCEPT ![Ev.id] = Ev.woff] ELSE [wend EXCEPT ![Ev.id] = Ev.end]
+     /\ fent' = IF fr = "Z" THEN fent ELSE IF known THEN [fent EXCEPT ![Ev.id] = @ + nE] ELSE fent
+     /\ rotdue' = (rotdue \/ (isBatch /\ Ev.nidxf = 1))
+     /\ UNCHANGED <<mk, meta, dk, dir, lk, lf, ll, op, ncommit, prev, rb>>
 
 Inv ==
   /\ op' = [k |-> Ev.opk, first |-> Ev.afirst, n |-> Ev.an, cons |-> Ev.acons, min |-> Ev.amin, max |-> Ev.amax]
   /\ ncommit' = 0 /\ rb' = FALSE
   \* between calls (background work of the previous call has quiesced) the directory is exactly the listed segments
   /\ IF mk /\ dk /\ Ev.opk # "open"
-     THEN /\ Rec(IF dir = Ids(meta.segs) THEN {} ELSE {"DirExact"}) /\ cnt' = Bump("dirx")
+     THEN /\ Rec((IF dir = Ids(meta.segs) THEN {} ELSE {"DirExact"})
+                 \* the rotation an append made due has happened by the time the next call starts (the driver lets
+                 \* background work quiesce after every call)
+                 \cup (IF rotdue THEN {"RotationDue"} ELSE {}))
+          /\ cnt' = Bump("dirx")
      ELSE /\ UNCHANGED viol /\ UNCHANGED cnt
-  /\ UNCHANGED <<mk, meta, dk, dir, lk, lf, ll, prev>>
+  /\ rotdue' = FALSE
+  /\ UNCHANGED <<mk, meta, dk, dir, lk, lf, ll, prev, wend, fent>>
 
 (* the contract's bounds after the call that returns now *)
 NewBounds ==
@@ -246,15 +294,16 @@ Ret ==
            THEN /\ Rec(IF Bnd = obs THEN {} ELSE {"BoundsMatch"}) /\ cnt' = Bump("bounds")
            ELSE UNCHANGED <<viol, cnt>>
      ELSE /\ lk' = FALSE /\ UNCHANGED <<lf, ll, viol, cnt>>
-  /\ UNCHANGED <<mk, meta, dk, dir, prev, rb>>
+  /\ UNCHANGED <<mk, meta, dk, dir, prev, rb, wend, fent, rotdue>>
 
-Skip == UNCHANGED <<mk, meta, dk, dir, lk, lf, ll, op, ncommit, prev, rb, viol, cnt>>
+Skip == UNCHANGED <<mk, meta, dk, dir, lk, lf, ll, op, ncommit, prev, rb, wend, fent, rotdue, viol, cnt>>
 
 Step ==
   /\ l <= Len(Trace) /\ l' = l + 1
   /\ IF Ev.ev = "reset" THEN
         /\ mk' = FALSE /\ meta' = NoMeta /\ dk' = FALSE /\ dir' = {} /\ lk' = FALSE /\ lf' = 0 /\ ll' = 0
-        /\ op' = NoOp /\ ncommit' = 0 /\ prev' = NoMeta /\ rb' = FALSE /\ UNCHANGED <<viol, cnt>>
+        /\ op' = NoOp /\ ncommit' = 0 /\ prev' = NoMeta /\ rb' = FALSE /\ wend' = <<>> /\ fent' = <<>> /\ rotdue' = FALSE
+        /\ UNCHANGED <<viol, cnt>>
      ELSE IF Ev.ev # "io" THEN Skip
      ELSE IF Ev.call = "inv" THEN Inv
      ELSE IF Ev.call = "ret" THEN Ret
@@ -265,11 +314,12 @@ Step ==
      ELSE IF Ev.call = "create" THEN Create
      ELSE IF Ev.call = "unlink" THEN Unlink
      ELSE IF Ev.call \in {"openr", "openw"} THEN OpenFile
-     ELSE IF Ev.call \in {"write", "sync"} THEN WriteSync
+     ELSE IF Ev.call = "write" THEN Write
+     ELSE IF Ev.call = "sync" THEN Sync
      ELSE Skip
 
 Finish == /\ l = Len(Trace) + 1 /\ PrintT(<<"IMPLTRACE", ToJson([v |-> viol, cnt |-> cnt])>>) /\ l' = l + 1
-          /\ UNCHANGED <<mk, meta, dk, dir, lk, lf, ll, op, ncommit, prev, rb, viol, cnt>>
+          /\ UNCHANGED <<mk, meta, dk, dir, lk, lf, ll, op, ncommit, prev, rb, wend, fent, rotdue, viol, cnt>>
 
 Next == Step \/ Finish
 Spec == Init /\ [][Next]_vars
